@@ -54,11 +54,18 @@ class Obligation:
         self.sites: list[dict] = []
         self.findings: list[Finding] = []
         self.notes: list[str] = []
+        self.error: str | None = None
 
     def __enter__(self) -> "Obligation":
         return self
 
     def __exit__(self, et, ev, tb) -> bool:
+        # an obligation that cannot be analysed does not hide what the others decide:
+        # it is recorded, the run continues, and the final status is exit 2 unless a
+        # violation was established elsewhere (then exit 1 with the error reported too)
+        if et is not None and issubclass(et, AnalysisError):
+            self.error = str(ev)
+            return True
         return False
 
     def site(self, where: FuncInfo | Module | None, node: ast.AST | None = None, what: str = "", **kw: Any) -> None:
@@ -162,28 +169,35 @@ def run_property(prop: str, rule_fn: Callable[[Ctx], None], tier: str, seed: int
     t0 = time.time()
     out = (lambda *a: None) if quiet else (lambda *a: print(*a))
     evidence_path = os.path.join(EVIDENCE_DIR, f"{prop}.json")
+    errors: list[str] = []
+    ctx = None
     try:
         repo = Repo(root)
         ctx = Ctx(repo, prop, tier, seed)
         rule_fn(ctx)
         if not ctx.obligations:
             raise AnalysisError("no obligations were produced")
-        for ob in ctx.obligations:
-            if not ob.sites and not ob.findings:
-                raise AnalysisError(f"{ob.id} matched zero sites (vacuous pass refused)")
     except AnalysisError as e:
-        out(f"ANALYSIS-ERROR property={prop} {e}")
-        if write_evidence:
-            _write_error_evidence(evidence_path, prop, tier, seed, str(e), time.time() - t0)
-        return 2
+        errors.append(str(e))
     except Exception:
-        tb = traceback.format_exc()
-        out(f"ANALYSIS-ERROR property={prop} internal error\n{tb}")
-        if write_evidence:
-            _write_error_evidence(evidence_path, prop, tier, seed, tb[-2000:], time.time() - t0)
-        return 2
-
+        errors.append("internal error\n" + traceback.format_exc()[-2000:])
+    if ctx is not None:
+        for ob in ctx.obligations:
+            if ob.error:
+                errors.append(f"{ob.id}: {ob.error}" if not ob.error.startswith(ob.id) else ob.error)
+            elif not ob.sites and not ob.findings and not errors:
+                errors.append(f"{ob.id} matched zero sites (vacuous pass refused)")
     known = load_known()
+    has_new = ctx is not None and any(match_known(f, known) is None for ob in ctx.obligations for f in ob.findings)
+    if errors and not has_new:
+        for e in errors:
+            out(f"ANALYSIS-ERROR property={prop} {e}")
+        if write_evidence:
+            _write_error_evidence(evidence_path, prop, tier, seed, " | ".join(errors), time.time() - t0)
+        return 2
+    for e in errors:
+        out(f"ANALYSIS-ERROR property={prop} {e}  (other obligations still decided; see below)")
+
     new: list[Finding] = []
     knownhits: list[tuple[Finding, dict]] = []
     for ob in ctx.obligations:
@@ -202,7 +216,7 @@ def run_property(prop: str, rule_fn: Callable[[Ctx], None], tier: str, seed: int
     out(f"[{prop}] analysed {len(repo.modules)} units, {len(repo.funcs)} functions "
         f"(source digest {repo.digest()}); {n_ob} obligations, {evaluations} rule-site evaluations")
     for ob in ctx.obligations:
-        st = "VIOLATED" if any(f in new for f in ob.findings) else ("known-finding" if ob.findings else "ok")
+        st = "VIOLATED" if any(f in new for f in ob.findings) else ("known-finding" if ob.findings else ("analysis-error" if ob.error else "ok"))
         out(f"  {ob.id:<8} {ob.title:<34} sites={len(ob.sites):<3} {st}")
     for f, k in knownhits:
         out(f"KNOWN-FINDING: property={prop} {k.get('id', '')} {f.rule} {f.function}: {k.get('what', f.message)}")
@@ -248,6 +262,7 @@ def run_property(prop: str, rule_fn: Callable[[Ctx], None], tier: str, seed: int
             "checker_cmd": f"/venv/bin/python check.py {prop} --tier {tier}",
             "trusted_base": ctx.trusted,
             "known_findings_reported": [k.get("id") for _f, k in knownhits],
+            "analysis_errors": errors,
             "exhaustive": False,
         }
         cov.update(ctx.extra)
